@@ -300,6 +300,15 @@ func (w *World) RunLedger(o LedgerOpts) {
 		}
 	}
 	slashN := 0
+	wSlash, wUndel, wKeys, wOpt, wEvid := 45, 170, 30, 25, 8
+	switch o.Profile {
+	case "slash":
+		wSlash, wEvid = 140, 25
+	case "exit":
+		wUndel, wOpt = 230, 40
+	case "keys":
+		wKeys, wOpt, wEvid = 110, 60, 20
+	}
 	for len(w.Steps) < o.Steps && !w.Dead {
 		x := r.Intn(1000)
 		wt := func(n int) bool { x -= n; return x < 0 }
@@ -330,7 +339,7 @@ func (w *World) RunLedger(o LedgerOpts) {
 				row := l.Staker[s.ID+"/"+a.ID]
 				w.Delegate(s, a, op, w.amount(row.WithdrawableAmount, hostile))
 			}
-		case wt(170): // undelegate
+		case wt(wUndel): // undelegate
 			ds := w.liveDelegations()
 			if len(ds) == 0 {
 				continue
@@ -396,17 +405,17 @@ func (w *World) RunLedger(o LedgerOpts) {
 					break
 				}
 			}
-		case wt(35): // opt in (with key) to dogfood
+		case wt(wOpt + 10): // opt in (with key) to dogfood
 			op := w.pickOper(true)
 			key := sim.NewConsKey(fmt.Sprintf("%s-k%d", op.Acct.Name, op.NextKey))
 			op.NextKey++
 			w.fund(op.Acct)
 			w.OptIn(op, w.AVSAddr, key)
-		case wt(25): // opt out
+		case wt(wOpt): // opt out
 			if op := w.pickOper(true); op != w.Opers[0] {
 				w.OptOut(op, w.AVSAddr)
 			}
-		case wt(30): // replace key
+		case wt(wKeys): // replace key
 			op := w.pickOper(true)
 			var key *sim.ConsKey
 			switch r.Intn(6) {
@@ -426,7 +435,7 @@ func (w *World) RunLedger(o LedgerOpts) {
 			}
 			w.fund(op.Acct)
 			w.SetKey(op, w.AVSAddr, key)
-		case wt(45): // slash (keeper step)
+		case wt(wSlash): // slash (keeper step)
 			slashN++
 			w.randomSlash(slashN)
 		case wt(35): // NST balance update
@@ -467,7 +476,7 @@ func (w *World) RunLedger(o LedgerOpts) {
 					w.C.Absent[hexa] = true
 				}
 			}
-		case wt(8): // double-sign evidence for a current validator
+		case wt(wEvid): // double-sign evidence for a current validator
 			if vs := w.C.ValSet.Validators; len(vs) > 0 && w.C.Height() > 2 {
 				v := vs[r.Intn(len(vs))]
 				if w.isProtectedCons(v.Address.Bytes()) {
